@@ -122,24 +122,41 @@ Definition wit_RemoveGroups :=
 Lemma RemoveGroupsNotification_mode_refuted : refutes schema_RemoveGroupsNotification_mode wit_RemoveGroups.
 Proof. refute_start. attr_differs Hn (s "mode"). Qed.
 
-(* open finding: an incoming message that carries no offline attribute comes back with
-   offline="0" (MessageMetaAttributes turns the absent value into False) *)
-Definition msg_hdr := [a "type" "text"; a "id" "1431204051-9"; a "from" "49@s.whatsapp.net"; a "t" "1431204094"].
+(* fixed by fixes/C09-message-offline-optional.patch: an incoming message that carries no offline
+   attribute came back with offline="0" (MessageMetaAttributes turned the absent value into False) *)
+Definition msg_hdr0 := [a "type" "text"; a "id" "1431204051-9"; a "from" "49@s.whatsapp.net"].
+Definition msg_hdr := (msg_hdr0 ++ [a "t" "1431204094"])%list.
 Definition wit_Message_offline := Node (s "message") msg_hdr None [].
-Lemma Message_offline_refuted : refutes (msg_in_offline_wide ty_any KNil) wit_Message_offline.
+Lemma Message_offline_prefix_refuted : refutes (msg_in_prefix_offline ty_any KNil) wit_Message_offline.
 Proof. refute_start. attr_differs Hn (s "offline"). Qed.
 
-(* open finding: retry="0" is dropped (int 0 is falsy on both sides) *)
+(* fixed by fixes/C09-message-retry-zero.patch: retry="0" was dropped (written only when truthy) *)
 Definition wit_Message_retry0 := Node (s "message") (msg_hdr ++ [a "offline" "0"; a "retry" "0"]) None [].
-Lemma Message_retry0_refuted : refutes (msg_in_retry_wide ty_any KNil) wit_Message_retry0.
+Lemma Message_retry0_prefix_refuted : refutes (msg_in_prefix_retry ty_any KNil) wit_Message_retry0.
 Proof. refute_start. attr_differs Hn (s "retry"). Qed.
 
-(* the same witnesses with the attribute in its documented domain are accepted by the
-   registered schema *)
-Example message_domain_witnesses :
-  matches pl_id (msg_in ty_any KNil) [] (Node (s "message") (msg_hdr ++ [a "offline" "0"; a "retry" "1"]) None []) = true /\
-  matches pl_id (msg_in ty_any KNil) [] wit_Message_offline = false /\
-  matches pl_id (msg_in ty_any KNil) [] wit_Message_retry0 = false.
+(* fixed by fixes/C09-message-timestamp-zero.patch: t="0" was replaced by the clock
+   (`timestamp or now()`); witness with the clock reading 1700000000 *)
+Definition wit_Message_t0 := Node (s "message") (msg_hdr0 ++ [a "t" "0"]) None [].
+Lemma Message_t0_prefix_refuted : refutes (msg_in_prefix_t 1700000000 ty_any KNil) wit_Message_t0.
+Proof. refute_start. attr_differs Hn (s "t"). Qed.
+
+Theorem message_prefix_variants_refuted_thm :
+  refutes (msg_in_prefix_offline ty_any KNil) wit_Message_offline /\
+  refutes (msg_in_prefix_retry ty_any KNil) wit_Message_retry0 /\
+  refutes (msg_in_prefix_t 1700000000 ty_any KNil) wit_Message_t0.
+Proof.
+  split; [apply Message_offline_prefix_refuted|].
+  split; [apply Message_retry0_prefix_refuted | apply Message_t0_prefix_refuted].
+Qed.
+
+(* the repaired schema accepts the same three witnesses (it is in the registry, hence lossless
+   on them) *)
+Example message_repaired_accepts_witnesses :
+  matches pl_id (msg_in ty_any KNil) [] wit_Message_offline = true /\
+  matches pl_id (msg_in ty_any KNil) [] wit_Message_retry0 = true /\
+  matches pl_id (msg_in ty_any KNil) [] wit_Message_t0 = true /\
+  rt_wf (msg_in ty_any KNil) wit_Message_t0 = true.
 Proof. vm_compute. repeat split. Qed.
 
 (* fixed by fixes/C09-notification-optional-attrs.patch: offline="0" appears from nowhere *)
